@@ -1,5 +1,6 @@
 import ComposeVerif.Model.EnvLayers
 import ComposeVerif.Spec.EnvLayers
+import ComposeVerif.Model.EnvLayersOrder
 /-!
 # C16 — more of the code around the two Project methods (round 5)
 
@@ -82,4 +83,44 @@ def yamlLabel : YLabels → Key → Option Str
 def finalLabelY (files : List (List Line)) (yl : YLabels) (k : Key) : Option Str :=
   orElse (yamlLabel yl k) (labelFilesVal files k)
 
+/-! ### layering for any registry of env_file formats
+
+The layering itself does not depend on how a file is parsed: whatever map `loadEnvFile` returns for a file — the dotenv
+parser's, or a parser registered with `dotenv.RegisterFormat` — is that file's layer; it is read with the lookup
+"earlier layers, then the project environment". -/
+
+/-- what env file `f` contributes to `k` when read with `look` (nothing when it is skipped); the parser returns a Go
+    map, for which `lookup k vars.reverse = lookup k vars` -/
+def layerVal (fs : FS) (f : EnvFile) (look : Look) (k : Key) : Option Str :=
+  match loadEnvFile fs f look with
+  | .ok vars => lookup k vars.reverse
+  | .error _ => none
+
+/-- value of `k` after the env files, listed LAST FILE FIRST -/
+def filesValGFrom (penv : List (Key × Str)) (fs : FS) (base : Key → Option Str) : List EnvFile → Key → Option Str
+  | [], k => base k
+  | f :: earlier, k =>
+    orElse (layerVal fs f (envLook penv (filesValGFrom penv fs base earlier)) k) (filesValGFrom penv fs base earlier k)
+
+def finalEnvG (penv : List (Key × Str)) (fs : FS) (efs : List EnvFile) (environment : List (Key × Option Str))
+    (k : Key) : Option (Option Str) :=
+  match lookup k environment with
+  | some (some v) => some (some v)
+  | some none => some (lookup k penv)
+  | none => (filesValGFrom penv fs (fun _ => none) efs.reverse k).map some
+
 end CV.EnvLayers.Spec
+
+namespace CV.EnvLayers
+
+/-- `WithServicesLabelsResolved` for one service with Go choosing every iteration order, **through** the
+    `len(labels) == 0` test and `NewLabelsFromMappingWithEquals` (a `range` again): the outcome is the final `Labels` -/
+def ServiceLabelsRunFull (fs : FS) (s : Service) (out : Except Err (List (Key × Str))) : Prop :=
+  ∃ merged, ServiceLabelsRun fs s merged ∧
+    match merged with
+    | .error e => out = .error e
+    | .ok final =>
+      if final.isEmpty then out = .ok s.labels
+      else ∃ res, Listing (ofMWE final) res ∧ out = .ok res
+
+end CV.EnvLayers
